@@ -323,11 +323,12 @@ static void mode_P(long nops, int variant) {
 #define MAXSLOT 160
 static struct { void* p; size_t size; int kind; } slots[MAXSLOT];   // kind: 0 free, 1 small/medium, 2 large, 3 huge
 // per segment base: the slices that were ever part of a page (as far as the dumps show) since the base was first seen
-#define MAXSEG 64
+#define MAXSEG 512
+static int seg_overflow = 0;   // more live segments than the tables hold: the run stops before an incomplete dump is printed
 static struct { size_t base; uint8_t* used; size_t nslices; int live; } segsh[MAXSEG];
 
 static mi_segment_t* seglist[MAXSEG]; static size_t nsegl;
-static void add_seg(mi_segment_t* s) { for (size_t i = 0; i < nsegl; i++) if (seglist[i] == s) return; if (nsegl < MAXSEG) seglist[nsegl++] = s; }
+static void add_seg(mi_segment_t* s) { for (size_t i = 0; i < nsegl; i++) if (seglist[i] == s) return; if (nsegl < MAXSEG) seglist[nsegl++] = s; else seg_overflow = 1; }
 static int seg_cmp(const void* a, const void* b) { uintptr_t x = (uintptr_t)*(mi_segment_t* const*)a, y = (uintptr_t)*(mi_segment_t* const*)b; return x < y ? -1 : x > y; }
 
 static void dump_api(int full_scan) {
@@ -335,6 +336,7 @@ static void dump_api(int full_scan) {
   nsegl = 0;
   for (size_t bin = 0; bin <= MI_BIN_FULL; bin++)
     for (mi_page_t* page = heap->pages[bin].first; page != NULL; page = page->next) add_seg(_mi_page_segment(page));
+  if (seg_overflow) { printf("END %ld\n", opno); fflush(stdout); exit(0); }   // (no E: the replay ignores the unfinished op)
   qsort(seglist, nsegl, sizeof(seglist[0]), seg_cmp);
   dump_arenas(full_scan);
   for (size_t i = 0; i < MAXSEG; i++) if (segsh[i].live) segsh[i].live = 2;    // 2 = not seen in this dump yet
